@@ -24,7 +24,7 @@ ASSUMPTIONS = [
 TECHNIQUE = "Hypothesis-generated problem x configuration pairs; reference validity + differential between configurations"
 
 PROFILE = S.profile(min_tasks=1, max_tasks=4, p_resources=60, task_constraints=(0, 2), optional_rules=(0, 1), resource_constraints=(0, 1), buffers=(0, 1),
-                    indicators=(0, 1), objectives=(0, 1), p_optional=25, p_work_amount=15)
+                    indicators=(0, 1), objectives=(0, 2), p_optional=25, p_work_amount=15)
 VALID_FAMILIES = ("T", "W", "TC", "RC", "OPT", "BUF", "FOL")
 
 
@@ -110,9 +110,11 @@ def solve_cfg(spec, seed, kw):
     if not sol:
         z = adapter._get(h.solver, "_solver")
         try:
-            definite = "unknown" not in str(z.check())
+            definite = str(z.check()) == "unsat"  # anything else: z3 gave up on the first call
         except Exception:
             definite = False
+        if kw.get("optimizer") == "optimize" and kw.get("optimize_priority") in ("pareto", "box") and len(spec["objectives"]) > 1:
+            definite = False  # a second check() is the next step of z3's walk over the front, not a re-check
     val = None
     sched = None
     if sol:
@@ -121,6 +123,20 @@ def solve_cfg(spec, seed, kw):
         obj = adapter._get(h.solver, "_objective")
         if obj is not None and len(spec["objectives"]) == 1:
             val = m.eval(adapter._get(obj, "_target"), model_completion=True).as_long()
+    h.handoff = None
+    if kw.get("optimizer") == "optimize" and spec["objectives"]:
+        # what was handed to z3.Optimize: exactly the declared objectives with their direction (z3 stores a
+        # maximisation as the minimisation of the negated term)
+        z = adapter._get(h.solver, "_solver")
+        registered = [str(x) for x in z.objectives()]
+        objs = list(h.objectives.values())
+        if len(objs) == 1 or kw.get("optimize_priority") == "weight":
+            o = adapter._get(h.solver, "_objective")
+            expected = [str(adapter._get(o, "_target") if o.kind == "minimize" else -adapter._get(o, "_target"))]
+        else:
+            expected = [str(adapter._get(o, "_target") if o.kind == "minimize" else -adapter._get(o, "_target")) for o in objs]
+        if registered != expected:
+            h.handoff = {"registered": registered, "expected": expected}
     return h, sol, sched, val, definite and not early
 
 
@@ -148,6 +164,10 @@ def prop(ctx, case):
             for k, v in kw.items():
                 if k != "_rseed":
                     ctx.event(f"cfg:{k}={v}")
+            if getattr(h, "handoff", None):
+                ctx.violation({"check": "C15.config", "rule": "objectives_handed_to_z3_differ_from_declared", "spec": spec, "seed": seed, "cfg": kw, "probe": {"kind": "config"},
+                               "observed": h.handoff, "signature": {"rule": "objectives_handoff", "classes": engine.classes_of(spec), "cfg_keys": sorted(k for k in kw if k != "_rseed")}})
+                return
             if sol:
                 bad = ref.judge(spec, sched).bad(VALID_FAMILIES)
                 if bad:
